@@ -1500,3 +1500,33 @@ CASES += [
 
     fn and_sub_desc(&'a self, r: SddPtr<'a>, d: SddPtr<'a>) -> SddPtr<'a> {""")]),
 ]
+
+# ------------------------------------------------------------------ LT growth-only resize
+CASES += [
+    dict(name="lt-resize-truncates", file=WMC, rule="LT", props=["C07", "C08"], expect="WmcParams.var_to_val:indexing-kept",
+         old="""        while n >= self.var_to_val.len() {
+            self.var_to_val.push(None);
+        }""",
+         new="""        self.var_to_val.resize(n + 1, None);"""),
+    dict(name="lt-resize-guarded-ok", file=WMC, rule="LT", props=["C07", "C08"], expect=None,
+         old="""        while n >= self.var_to_val.len() {
+            self.var_to_val.push(None);
+        }""",
+         new="""        if n >= self.var_to_val.len() {
+            self.var_to_val.resize(n + 1, None);
+        }"""),
+    dict(name="lt-resize-max-ok", file=WMC, rule="LT", props=["C07", "C08"], expect=None,
+         old="""        while n >= self.var_to_val.len() {
+            self.var_to_val.push(None);
+        }""",
+         new="""        let new_len = self.var_to_val.len().max(n + 1);
+        self.var_to_val.resize(new_len, None);"""),
+]
+
+# ------------------------------------------------------------------ NB generic modulus / shifts / loop bodies
+CASES += [
+    dict(name="nb-shift-drops-bits", file=FF, rule="NB", props=["C13", "C08"], expect="mul@ANY_P",
+         old="""        a = (a + a) % P;""", new="""        a = (a << 4) % P;"""),
+    dict(name="nb-shift-by-one-ok", file=FF, rule="NB", props=["C13", "C08"], expect=None,
+         old="""        a = (a + a) % P;""", new="""        a = (a << 1) % P;"""),
+]
